@@ -669,7 +669,7 @@ pub fn c16_from_arcs_matrix_fixedcap_k3() {
 }
 
 // ... with 1..=2 arcs (quick).
-// @verif prop=C16 tier=quick fl=f2 feat=fixedcap role=from-arcs/matrix t=1500 mem=20
+// @verif prop=C16 tier=thorough fl=f2 feat=fixedcap role=from-arcs/matrix t=3000 mem=20
 #[cfg_attr(kani, kani::proof)]
 #[cfg_attr(kani, kani::unwind(10))]
 pub fn c16_from_arcs_matrix_fixedcap_k2() {
